@@ -710,7 +710,7 @@ var initAllowStd = map[string]bool{
 	"go/build/constraint": true, "go/internal/typeparams": true, "hash": true, "syscall": false, "io/ioutil": true,
 	"github.com/qiniu/x/errors": true, "github.com/qiniu/x/stringutil": true, "github.com/qiniu/x/byteutil": true, "github.com/qiniu/x/xgo": true,
 	"github.com/qiniu/x/stringslice": true, "github.com/qiniu/x/ctype": true, "github.com/qiniu/x/xgo/ng": false,
-	"github.com/goplus/gogen/token": true,
+	"github.com/goplus/gogen/token": true, "context": true,
 }
 
 var initDenyRepo = map[string]bool{
